@@ -374,6 +374,23 @@ pub fn enc_items(items: &[(String, String)]) -> String {
 /// representatives of the lexer's character classes
 pub const ALPHABET: [&str; 12] = ["a", "-", ":", "#", " ", "\t", "\n", "\r", "é", "😀", "\u{1}", "~"];
 
+/// the EDGES of the lexer's character ranges (audit C01 W5; seeded change C03-r7m1: a key-character
+/// range with exclusive upper bounds that drops `9` and `~`): `!` (0x21, first graphic character),
+/// `9` and `;` (the neighbours of `:`), DEL (0x7f, first character after `~`, not graphic), U+0080
+/// (first non-ASCII character, a 2-byte C1 control), VT (0x0b, between the indent TAB 0x09 / the
+/// line end LF 0x0a and the line end CR 0x0d; white space for Unicode, neither indent nor line end
+/// here). `~` (0x7e, last graphic character) is in `ALPHABET`. `ALPHABET` itself is left as it is:
+/// the generators of C02, C06, C07 and the changes codec enumerate over it to their own lengths.
+pub const EDGE_CHARS: [&str; 6] = ["!", "9", ";", "\u{7f}", "\u{80}", "\u{b}"];
+
+/// every string of length <= `max` over `ALPHABET` + `EDGE_CHARS` (18 classes) that contains at
+/// least one edge character (the others are in `strings_upto(&ALPHABET, ..)` already)
+pub fn edge_texts(max: usize) -> Vec<String> {
+    let mut all: Vec<&str> = ALPHABET.to_vec();
+    all.extend(EDGE_CHARS.iter());
+    strings_upto(&all, max).into_iter().filter(|t| EDGE_CHARS.iter().any(|e| t.contains(e))).collect()
+}
+
 /// characters a "lenient" rewrite is likely to special-case: BOM, Unicode white space other than
 /// space/tab (NBSP, ideographic space, VT, FF, NEL, LINE SEPARATOR), NUL, DEL
 pub const ODD_CHARS: [&str; 9] = ["\u{feff}", "\u{a0}", "\u{3000}", "\u{b}", "\u{c}", "\u{85}", "\u{2028}", "\u{0}", "\u{7f}"];
@@ -696,6 +713,10 @@ pub fn generate_c01(tier: &str, seed: u64, out: &mut Out) {
         out.req("deb.readbytes", &[es(t)]);
     }
     for t in gen_texts(tier, seed) {
+        out.req("deb.read", &[es(&t)]);
+    }
+    // complete enumeration one character shorter over the 18 classes with the range edges
+    for t in edge_texts(if tier == "thorough" { 5 } else { 4 }) {
         out.req("deb.read", &[es(&t)]);
     }
     // raw byte inputs: valid texts and every way of breaking UTF-8 (truncated sequences, stray
